@@ -270,7 +270,7 @@ def fastR (c : Cx) (k : Nat) (raw : List (List Int)) (names : Option (List Strin
   hx buf ++ s!"@{fastReplaceLastIndex c.fl raw k}"
 
 def fastP (c : Cx) (raw : List (List Int)) (lim : Option Nat) : String :=
-  "[" ++ joinWith "," ((fastSplit c.units raw lim).map hxo) ++ "]@0"
+  "[" ++ joinWith "," ((fastSplitOld c.units raw lim).map hxo) ++ "]@0"
 
 def opPred (f : List String) : String :=
   let flags := f.getD 1 "-"
@@ -306,9 +306,7 @@ def opPred (f : List String) : String :=
     [ s!"M{k}=" ++ (if fl.global then fastM c allm else opM c k),
       s!"F{k}=" ++ fastF c k rawk names,
       s!"R{k}=" ++ fastR c k rawk names tmpl ])
-  let fixP := fun (lim : Option Nat) => "[" ++ joinWith "," ((fastSplitFixed c.units alls lim).map hxo) ++ "]@0"
-  let fast := joinWith ";" (fper ++ ["P=" ++ fastP c alls none, s!"PL{limit}=" ++ fastP c alls (some limit),
-    "Pfix=" ++ fixP none, s!"PLfix{limit}=" ++ fixP (some limit)])
+  let fast := joinWith ";" (fper ++ ["P=" ++ fastP c alls none, s!"PL{limit}=" ++ fastP c alls (some limit)])
   let plain := joinWith ";" (starts.flatMap (fun k => [s!"F{k}=" ++ opFplain c k, s!"R{k}=" ++ opRplain c k tmpl]))
   gen ++ "\t" ++ fast ++ "\t" ++ plain
 
